@@ -501,12 +501,14 @@ PROPS["C10"] = dict(
 PROPS["C03"] = dict(
     excludes=NATIVE_EXCLUDES,
     variant="plain",
-    sources=ENGINE + ["props/c01_native.c"],
+    sources=ENGINE + ["engine/cgen.c", "props/c01_native.c"],
     cflags=["-DC03_MODE"],
+    ldflags=["-ldl"],
+    set=["cg_inc=-I{repo} -I{build}", "scratch={scratch}"],
     level="exploration",
     technique="generated programs run on guard-page arenas (PROT_NONE neighbours, read-only sources, canaried gaps) against an entitlement model",
     level_text=("all single-opcode program forms and rapidcheck-generated integer programs (incl. offset, upsampling and resampling loads) "
-                "are executed natively on avx/sse/mmx and through emulation with every array placed so that its entitled elements end "
+                "are executed natively on avx/sse/mmx, through emulation and (one program in six) through the gcc-compiled generated C, with every array placed so that its entitled elements end "
                 "flush against (or start right after) an inaccessible page, rows either separated by unmapped pages or by canaried gaps, "
                 "sources mapped read-only; n dense in 0..100, m in 0..4. A fault is attributed to the array and its distance from the "
                 "entitled range. Exploration: only generated programs/shapes are covered"),
